@@ -442,8 +442,10 @@ class Gen:
             return self.ptrwalk(sc)
         if c < 0.52 and depth == 0:
             return self.fpobj(sc)
-        if c < 0.55:
+        if c < 0.535:
             return self.nested(sc) or [s_obs(self.expr(sc))]
+        if c < 0.55 and depth == 0:
+            return self.arrstruct(sc) or [s_obs(self.expr(sc))]
         if c < 0.55:
             return [s_obs(self.expr(sc))]
         if depth >= 2:
@@ -540,6 +542,42 @@ class Gen:
                     out.append(s_obs(idx(mem(var(t), f["n"]), lit("int", r.randrange(f["t"]["n"])))))
                 elif f["t"]["k"] == "s":
                     out += [s_obs(mem(mem(var(t), f["n"]), x["n"])) for x in self.ifields(f["t"]["id"])[:2]]
+        return [s_block(out)]
+
+    def arrstruct(self, sc):
+        """arrays of structs: element addresses scale by the struct size (padding included), element copies, pointers stepping over elements"""
+        r = self.r
+        if not self.structs:
+            return []
+        sid = r.randrange(1, len(self.structs) + 1)
+        fs = self.ifields(sid)
+        n, ln = self.fresh("as"), r.randrange(2, 5)
+        rows = [i_list([i_e(self.lit_for(f["t"]["n"], small=r.random() < 0.5)) for f in fs[:r.randrange(1, len(fs) + 1)]]) for _ in range(r.randrange(1, ln + 1))]
+        d = s_decl(n, A(St(sid), ln), i_list(rows))
+        out = []
+        if r.random() < 0.5:
+            self.globals.append(d)
+        else:
+            out.append(d)
+        i = self.fresh("i")
+        f = r.choice(fs)
+        out.append(s_for(s_decl(i, T("int"), i_e(lit("int", 0))), bin_("<", var(i), lit("int", ln)), s_expr(incdec(var(i))),
+                         s_asg(r.choice(["=", "^=", "|="]), mem(idx(var(n), var(i)), f["n"]), bin_("+", cast(T("uint"), var(i)), self.atom(sc)))))
+        for j in range(ln):
+            out += [s_obs(mem(idx(var(n), lit("int", j)), g["n"])) for g in fs]
+        a, b = r.randrange(ln), r.randrange(ln)
+        if a != b:
+            out += [s_asg("=", idx(var(n), lit("int", a)), idx(var(n), lit("int", b)))] + [s_obs(mem(idx(var(n), lit("int", a)), g["n"])) for g in fs]
+        pn, k = self.fresh("sp"), r.randrange(ln)
+        out += [s_decl(pn, P(St(sid)), i_e(addr(idx(var(n), lit("int", k))))), s_obs(mem(deref(var(pn)), f["n"])),
+                s_obs(bin_("-", var(pn), addr(idx(var(n), lit("int", 0)))))]
+        if k + 1 < ln:
+            out += [s_expr(incdec(var(pn))), s_obs(mem(deref(var(pn)), f["n"])), s_asg("=", mem(deref(var(pn)), f["n"]), self.lit_for(f["t"]["n"])),
+                    s_obs(mem(idx(var(n), lit("int", k + 1)), f["n"])), s_obs(bin_("-", var(pn), addr(idx(var(n), lit("int", 0)))))]
+        others = [x for x, q in sc["structs"].items() if q == sid]
+        if others:
+            o = r.choice(others)
+            out += [s_asg("=", var(o), idx(var(n), lit("int", r.randrange(ln))))] + [s_obs(mem(var(o), g["n"])) for g in fs]
         return [s_block(out)]
 
     def empty_scope(self):
@@ -679,6 +717,8 @@ class Gen:
                 self.vcalls.append((name, args))
         sc = self.scope(g)
         body = self.stmts(sc, r.randrange(6, 14), 0)
+        for fam in getattr(self, "force", ()):       # agg_program: make sure the aggregate / sequencing families occur
+            body += getattr(self, fam)(sc)
         # goto patterns at the top level of main: all top-level declarations are hoisted before the first label
         if r.random() < 0.6:
             decls = [x for x in body if x["k"] in ("decl", "static", "vla")]
@@ -792,6 +832,14 @@ def vm_program(rng, charsigned):
     return program(g.structs, g.globals, [func("main", T("int"), [], s_block(body))], charsigned)
 
 
+def agg_program(rng, charsigned):
+    """a general program that is certain to contain nested members, arrays of structs, pointer walks and sequenced side effects"""
+    g = Gen(rng)
+    g.force = ["nested", "arrstruct", "ptrwalk", "seqfx", "nested", "arrstruct", "seqfx"]
+    p = g.program(charsigned)
+    return p
+
+
 def fp_program(rng, charsigned):
     """floating objects with static and automatic storage"""
     g = Gen(rng)
@@ -810,12 +858,15 @@ def random_programs(ctx, objdir, runtime):
     n_sw = 6 if ctx.quick else 60
     n_vm = 8 if ctx.quick else 120
     n_fp = 8 if ctx.quick else 120
+    n_agg = 10 if ctx.quick else 150
     n_refine = 12 if ctx.quick else 80
     progs, fam_of = [], {}
-    for i in range(n + n_init + n_sw + n_vm + n_fp):
+    for i in range(n + n_init + n_sw + n_vm + n_fp + n_agg):
         t = ["x86_64-sysv", "aarch64", "riscv64"][i % 3] if not ctx.quick else ["x86_64-sysv", "aarch64"][i % 2]
         rng = random.Random(ctx.seed * 100003 + i)
-        if i >= n + n_init + n_sw + n_vm:
+        if i >= n + n_init + n_sw + n_vm + n_fp:
+            fam, pr = "agg", agg_program(rng, c01.charsigned_of(t))
+        elif i >= n + n_init + n_sw + n_vm:
             fam, pr = "fp", fp_program(rng, c01.charsigned_of(t))
         elif i >= n + n_init + n_sw:
             fam, pr = "vm", vm_program(rng, c01.charsigned_of(t))
@@ -905,7 +956,7 @@ def random_programs(ctx, objdir, runtime):
     # flow C: Refine on a sample (CSem and QbeMachine both inside TLC), binding il2c to QbeMachine
     # (some of every program family; the general family gets the rest)
     sample, per = [], max(1, n_refine // 6)
-    for fam in ("init", "switch", "vm", "fp"):
+    for fam in ("init", "switch", "vm", "fp", "agg"):
         sample += [d for d in defined if fam_of.get(id(d[1][0])) == fam][:per]
     sample += [d for d in defined if fam_of.get(id(d[1][0])) == "random"][:max(0, n_refine - len(sample))]
     if sample:
